@@ -18,7 +18,7 @@ RULE = ("all 5 host message types and 4 return message types x boundary-biased f
         "widths (uint32 app/msg ids, uint8 qubit counts / fidelities, int32 socket and node ids and register "
         "values); returned arrays of length 0..300 with EVERY undefined-pattern up to length 6 and random patterns "
         "above; subroutine messages carry random subroutines of all three flavours."
-        ' Returned arrays of 65535 .. 2^20+5 entries. '
+        ' Returned arrays of 65535 .. 2^18+3 (thorough: 2^21) entries at block boundaries (2^16, 2^17, 2^18 and one off), and arrays of 1025 .. 20000 entries made of RUNS (undefined / 0 / 1 / random) whose lengths sit at and around 8, 256, 1024. '
         "Non-trivial = the message has at "
         "least one payload field; distinct = distinct case description.")
 ASSUMPTIONS = ["field values are inside the declared widths (out-of-range values are C16's subject)",
